@@ -292,6 +292,9 @@ func runC09(w *World, r *Report) {
 		}
 	}
 
+	r.Rule("C09.reslice-append", "no append onto a re-slice (x[:k]) of a parameter slice or of a slice held in a field of a shared object, except the owner's delete-in-place stored back into the same field", 1)
+	ruleResliceAppend(w, r, "C09.reslice-append", "compose", "schema", "internal", "flow", "callbacks", "components", "utils")
+
 	r.Rule("C09.append-alias", "append on a slice held in a shared object is stored back to the same field or starts from a fresh slice", 1)
 	armedOwners := map[*types.Named]bool{}
 	for t := range compiled {
